@@ -16,7 +16,8 @@
    (build_step.go:226-260): needsBuilding(postBuild=false) on the declared outputs, then the outputs named
    in the stored metadata are added to the target, then needsBuilding(postBuild=true) on all of them.
    Filegroups may have DIRECTORY sources (filegroup.go:65: RemoveAll + recursive link when the hashes differ); genrules
-   may use other targets as tools (command UseTool: cat $TOOLS $SRCS); the command CatAll globs the temporary
+   may use other targets as tools (every command: the tool outputs enter the source key; the commands UseTool / UseNTool:
+   cat $TOOLS $SRCS and ToolNames: the names in $TOOLS see them, every other command works on $SRCS alone: src_ins); the command CatAll globs the temporary
    directory, which prepareDirectory(tmpDir, remove = true) (build_step.go:577) recreates empty before every build:
    the temporary directory is a function of the sources and is no part of the persistent state.
    Not modelled: the cache for output_dirs targets (they never use it here), dependents of output_dirs
